@@ -4,6 +4,7 @@ package gen
 
 import (
 	"strconv"
+	"strings"
 
 	"pgregory.net/rapid"
 
@@ -69,6 +70,13 @@ func Key(t *rapid.T) string {
 func Str(t *rapid.T) string {
 	switch rapid.IntRange(0, 9).Draw(t, "strkind") {
 	case 0:
+		if Chance(t, "longstr", 1, 12) {
+			// long strings: a short unit repeated up to a length near a
+			// typical buffer size, with a different tail
+			unit := Pick(t, "unit", []string{"a", "ab", "é", "日", "😀", "a é", "\u0080", "x,"})
+			n := Pick(t, "longlen", []int{31, 33, 63, 65, 127, 129, 255, 257, 1023, 1025, 4095, 4097, 8191, 8193})
+			return strings.Repeat(unit, n/len([]rune(unit))) + Pick(t, "tail", []string{"", "z", "é", "日"})
+		}
 		return Pick(t, "s1", Strs) + Pick(t, "s2", Strs)
 	case 1:
 		n := rapid.IntRange(0, 6).Draw(t, "slen")
@@ -476,6 +484,15 @@ func (g *G) fieldFor(v jv.Val) string {
 
 func (g *G) items(cur jv.Val, depth int) []ast.Expr {
 	n := rapid.IntRange(1, 3).Draw(g.T, "nitems")
+	if Chance(g.T, "wide", 1, 60) {
+		// a wide multi-select: many simple items after a few generated ones
+		few := g.items(cur, depth)
+		w := Pick(g.T, "width", []int{9, 17, 33, 65})
+		for i := len(few); i < w; i++ {
+			few = append(few, Pick(g.T, "wideitem", []ast.Expr{ast.Cur(), ast.Lit(jv.VInt(int64(i))), ast.F("a"), ast.RawS("w")}))
+		}
+		return few
+	}
 	out := make([]ast.Expr, n)
 	for i := range out {
 		out[i] = g.Expr(cur, depth+1)
@@ -756,6 +773,9 @@ func (g *G) callHead(cur jv.Val, depth int) ast.Head {
 	}
 	if max > n {
 		n = rapid.IntRange(sig.Min, max).Draw(t, "argc")
+	}
+	if sig.Max < 0 && Chance(t, "manyargs", 1, 20) {
+		n = Pick(t, "nargs", []int{5, 9, 17, 33})
 	}
 	args := make([]ast.Arg, n)
 	for i := range args {
